@@ -34,7 +34,8 @@
 (*                                                                           *)
 (*   sys : the system (PoissonLL.tla)                                        *)
 (*   I   : [N, startSubset, uss, a, ef, prior (0 none, 1 quadratic, 2 RDP),  *)
-(*          mult, iuf, iif, zero, maxSeg]                                    *)
+(*          mult, iuf, iif, zero (zero_seg0_end_planes), maxSeg (resolved    *)
+(*          max_segment_num_to_process)]                                     *)
 (*   st  : SensTab(sys, I), memoised by the caller                           *)
 (*   prev: image before the sub-iteration, scale 2^IK; el: bound on the      *)
 (*         error of each of its elements (0 for an exact integer image)      *)
@@ -87,10 +88,10 @@ Filtered(I, k) == IufFires(I, k) \/ IifFires(I, k)
 (* explicit matrix subset s holds the views minView + s, minView + s + N, ...                                          *)
 Balanced(sys, N) == N >= 1 /\ N <= sys.numViews /\ sys.numViews % N = 0
 
-(* sensitivities in units of 1/SC: st[1] = total, st[s + 2] = subset s (options of PoissonLL left at their defaults:    *)
-(* all segments, no zeroed end planes)                                                                                 *)
-UsedAll(sys) == [used |-> [b \in 1..NB(sys) |-> TRUE]]
-SensTab(sys, I) == LET m == UsedAll(sys) IN [si \in 1..(I.N + 1) |-> [v \in 1..sys.nv |-> Sens(sys, I, m, si - 2, v)]]
+(* sensitivities in units of 1/SC: st[1] = total, st[s + 2] = subset s; only the bins PoissonLL.tla calls used take     *)
+(* part (max_segment_num_to_process = I.maxSeg, zero_seg0_end_planes = I.zero)                                         *)
+UsedTab(sys, I) == [used |-> [b \in 1..NB(sys) |-> UsedBin(sys, I, b)]]
+SensTab(sys, I) == LET m == UsedTab(sys, I) IN [si \in 1..(I.N + 1) |-> [v \in 1..sys.nv |-> Sens(sys, I, m, si - 2, v)]]
 (* subset sensitivity as reported: s_S = SensNum / (SC * SensDiv) *)
 SensNum(I, st, s, v) == IF I.uss THEN st[s + 2][v] ELSE st[1][v]
 SensDiv(I) == IF I.uss THEN 1 ELSE I.N
@@ -113,7 +114,7 @@ EQFx(sys, I, prev, y, el, b) ==
            fl == IF d % P2IK = 0 /\ y[b] % (d \div P2IK) = 0 THEN 0 ELSE 1
        IN (QFx(sys, I, prev, y, b) * ed) \div (d - ed) + fl
 
-InS(sys, I, b, s) == (View(sys, b) - sys.minView) % I.N = s
+InS(sys, I, b, s) == UsedBin(sys, I, b) /\ (View(sys, b) - sys.minView) % I.N = s          \* bin b takes part in subset s
 (* the whole step is within the range of this arithmetic ... *)
 StepInDomain(sys, I, prev, y, g, s) ==
   /\ \A v \in 1..sys.nv : prev[v] >= 0 /\ prev[v] < ImgMax
@@ -209,11 +210,13 @@ ZeroWhereInsensitive(sys, I, st, s, out) == \A v \in 1..sys.nv : SensNum(I, st, 
 (* "without additive term the sensitivity-weighted image sum equals the total of the measured counts after every      *)
 (* full-data update":  SUM_v s(v) lambda'_v = SUM_b y_b, provided counts occur only where the mean is positive.         *)
 (* eo = bound on the error of each element of out.                                                                     *)
-CountsSeen(sys, prev, y) == \A b \in 1..NB(sys) : y[b] > 0 => RowDot(sys.rows[b], prev) > 0
-PreservesCounts(sys, st, y, out, eo) ==
-  LET T == Sum(y) * P2IK
+(* ("measured counts" = the counts in the bins that take part: excluded segments and zeroed end planes do not count)     *)
+CountsSeen(sys, I, prev, y) == \A b \in 1..NB(sys) : (UsedBin(sys, I, b) /\ y[b] > 0) => RowDot(sys.rows[b], prev) > 0
+UsedCounts(sys, I, y) == Sum([b \in 1..NB(sys) |-> IF UsedBin(sys, I, b) THEN y[b] ELSE 0])
+PreservesCounts(sys, I, st, y, out, eo) ==
+  LET T == UsedCounts(sys, I, y) * P2IK
       tol == Sum([v \in 1..sys.nv |-> (st[1][v] \div SC + 1) * eo + 2]) + T \div 65536
-  IN /\ Sum(y) < 16384
+  IN /\ UsedCounts(sys, I, y) < 16384
      \* each term alone is bounded by the total (and cannot overflow below)
      /\ \A v \in 1..sys.nv : out[v] >= 0 /\ (st[1][v] > 0 => out[v] <= ((T + tol) \div st[1][v] + 1) * SC)
      /\ Abs(Sum([v \in 1..sys.nv |-> (out[v] \div SC) * st[1][v] + ((out[v] % SC) * st[1][v]) \div SC]) - T) <= tol
